@@ -109,6 +109,13 @@ func vc10(minQuota, maxQuota int, mating bool, pool int, interspecies bool) {
 		}
 	}
 	vAssert(fresh, "C10: every offspring is a new organism with its own genome")
+	ids := true
+	for i, b := range babies {
+		for _, c := range babies[i+1:] {
+			ids = vAnd(ids, b.Genotype.Id != c.Genotype.Id)
+		}
+	}
+	vAssert(fresh && ids, "C02: the offspring of one species carry pairwise distinct genome objects and genome ids")
 	vAssert(sameSnap(snap(champ), s0), "C10: reproduction leaves the champion's genome untouched")
 	vReach("end")
 }
